@@ -156,6 +156,15 @@ func engineCacheHist(ctx *Ctx) {
 		} else if !ctx.R.Guard("C05", "LoadDatabase", dbName, func() { db = vlib.MustLoad(vlib.GenCommands(r, sp)) }) {
 			continue
 		}
+		if ctx.G(h)%4 == 2 && dbName != "shipped" {
+			// a semantic word table is loaded: one more stage whose state a search may depend on
+			ok := false
+			ctx.R.Guard("C05", "LoadEmbeddings", dbName, func() { ok = attachEmbeddings(ctx, r, db, "unit") })
+			if ok {
+				dbName += "/with-embeddings"
+				ctx.R.Path("histories-with-embeddings", 1)
+			}
+		}
 		mdb := database.NewMonitoredDatabase(db)
 		cdb := mdb.CachedDatabase
 		words := vlib.DBWords(db.Commands)
@@ -439,6 +448,16 @@ func engineCacheHist(ctx *Ctx) {
 						repl = nil // replaced by an empty database
 					case 1:
 						repl = []vlib.Cmd{}
+					}
+					switched := r.Intn(4) == 0 && cdb.IsCacheEnabled()
+					if switched { // the cache is switched off while the database is replaced, and on again afterwards
+						cdb.EnableCache(false)
+						trace = append(trace, "EnableCache(false)")
+						ctx.R.Path("op-update-database-while-the-cache-is-off", 1)
+						defer func() {
+							cdb.EnableCache(true)
+							trace = append(trace, "EnableCache(true)")
+						}()
 					}
 					if r.Intn(2) == 0 {
 						cdb.UpdateDatabase(repl)
